@@ -62,7 +62,7 @@ func (vc *FuncVC) protected(comp string) bool {
 	switch {
 	case strings.HasPrefix(comp, "IT!"), strings.HasPrefix(comp, "LG!"), comp == "clock":
 		return true
-	case comp == "alloc":
+	case comp == "alloc", comp == "escaped":
 		return true
 	case strings.HasPrefix(comp, "F!"), strings.HasPrefix(comp, "G!"):
 		return vc.compRepo[comp]
@@ -94,7 +94,7 @@ func (s *State) get(comp string) Term {
 		if s.havocAll && !vc.protected(comp) {
 			hav = true
 		}
-		if s.havocTotal && comp != "alloc" && !strings.Contains(comp, "#L") && !strings.HasPrefix(comp, "LG!") && !strings.HasPrefix(comp, "IT!") && comp != "clock" {
+		if s.havocTotal && comp != "alloc" && comp != "escaped" && !strings.Contains(comp, "#L") && !strings.HasPrefix(comp, "LG!") && !strings.HasPrefix(comp, "IT!") && comp != "clock" {
 			hav = true
 		}
 		if hav {
